@@ -1151,6 +1151,10 @@ func (m *Model) tombParamFromDeletionFlag(dw *docWrite, val, tomb *sqlp.Expr) (b
 					if b2, f, ok := fieldLoad(a); ok && f == flag && sameValue(b2, base) {
 						fromSame = true
 					}
+					// (a method of the event itself: `e.tombstoneFlag()`)
+					if sameValue(stripConv(a), stripConv(base)) {
+						fromSame = true
+					}
 				}
 				if cv, ok := m.constSelectedOnTrue(rt, flag, 0); ok && fromSame {
 					if n, exact := constant.Int64Val(constant.ToInt(cv)); exact && n == 1 {
